@@ -38,7 +38,8 @@ TRUSTED = [
     "harness/src/bin/c14.rs, helpers/hp.c, helpers/seq.c, drive/c14.py",
 ]
 ASSUMES = [
-    "C14_interp assumes set -e is not in effect (exit_on_error w = false for all w); set -e is C15's subject",
+    "C14_interp assumes the set -e flag constant during the run (exit_on_error w = e for all w): e = false and e = true "
+    "(C15_sete) are both covered; a flag switched in the middle of a body by a step that yields no status is outside",
     "the parser-correctness statement C14_parse_full is PROVED (unbounded, for all sufficiently large fuel) only for flat "
     "scripts = any number of non-keyword command lines without indentation (C14_parse_partial, frag_flat); for scripts "
     "with if / for / while blocks it is proved only on two computed instances (C14_parse_instances) and otherwise "
